@@ -15,8 +15,10 @@ Observable: [payload (DeltaShow.sx_delta), outcome] with outcome = ["raised", ex
 [canonical result (dict order ignored), errors logged > 0].
 
 Generator restrictions of (B) - places where even apply_ff is not the code (DeltaFaithful.v header):
-  * no container inside a tuple (base and payload values): the code edits such a container in place / re-enters
-    post_process_paths_to_convert while iterating it (RuntimeError); DeltaModel.upd refuses to write through a tuple
+  * no container inside a tuple (base and payload values) and no tuple inside a value that the payload WRITES
+    (new_value, added / moved values): otherwise a tuple can end up inside a (coerced) tuple, and the code edits a
+    container inside a tuple in place / re-enters post_process_paths_to_convert while iterating it (RuntimeError, or
+    the outer tuple silently stays a list); DeltaModel.upd refuses to write through a tuple
   * no removal path is 'root' (dom_delta)
   * the paths of one Python dict are distinct also after parsing; iterable_item_removed / iterable_item_moved sources
     are distinct, iterable_item_added / iterable_item_moved targets are distinct (the code merges them with
@@ -82,7 +84,17 @@ def stream_a(ctx, n):
     tries = 0
     while len(pairs) < n and tries < 50 * n:
         tries += 1
-        a, b, _k = V.gen_atom_list_pair(rng, maxlen=rng.choice([3, 5, 8]))
+        if rng.random() < 0.4:
+            # pure insertions (distinct items: difflib and the pairwise pass both see an insertion) / deletions
+            a = rng.sample(rng.choice([["a", "b", "c", "d", "e", "f"], [1, 2, 3, 4, 5, 6], ["a", 1, None, 2.5, "b", 7]]), rng.randint(0, 4))
+            b = list(a)
+            for _ in range(rng.randint(1, 2)):
+                if rng.random() < 0.75 or not b:
+                    b.insert(rng.randint(0, len(b)), rng.choice(["x", "y", 8, 9]))
+                else:
+                    del b[rng.randrange(len(b))]
+        else:
+            a, b, _k = V.gen_atom_list_pair(rng, maxlen=rng.choice([3, 5, 8]))
         if len(a) == len(b) or V.contains_alias(a, b):
             continue
         pairs.append((tuple(a), tuple(b), rng.choice([0, 0, 1, 2])))
@@ -130,7 +142,7 @@ def g_atom(rng):
     return rng.choice(ATOMS)
 
 
-def g_value(rng, depth):
+def g_value(rng, depth, tuples=True):
     """lists / tuples (atoms only) / dicts / a few sets, nested <= depth"""
     if depth <= 0:
         return g_atom(rng)
@@ -138,15 +150,17 @@ def g_value(rng, depth):
     if r < 0.25:
         return g_atom(rng)
     if r < 0.55:
-        return [g_value(rng, depth - 1) for _ in range(rng.randint(0, 4))]
+        return [g_value(rng, depth - 1, tuples) for _ in range(rng.randint(0, 4))]
     if r < 0.70:
+        if not tuples:
+            return g_atom(rng)
         return tuple(g_atom(rng) for _ in range(rng.randint(0, 4)))
     if r < 0.95:
         keys = []
         for k in rng.sample(DKEYS, rng.randint(0, 3)):
             if all(not (k == q) for q in keys):
                 keys.append(k)
-        return {k: g_value(rng, depth - 1) for k in keys}
+        return {k: g_value(rng, depth - 1, tuples) for k in keys}
     mem = []
     for a in rng.sample([x for x in ATOMS], rng.randint(0, 3)):
         if all(not (a == q) for q in mem):
@@ -156,6 +170,13 @@ def g_value(rng, depth):
 
 def g_base(rng):
     r = rng.random()
+    if r < 0.15:
+        # repeated items (small alphabet, == atoms of different type included): the closest-element search has
+        # several candidates, also at equal distance on both sides
+        alpha = rng.choice([[1, 2], ["a", "b", "c"], [1, True, 1.0, 2], [None, 0, "x"], [0.5, "a"]])
+        xs = [rng.choice(alpha) for _ in range(rng.randint(3, 7))]
+        r2 = rng.random()
+        return xs if r2 < 0.6 else (tuple(xs) if r2 < 0.75 else {"k": xs, 1: rng.choice(alpha)})
     if r < 0.45:
         return [g_value(rng, 1) for _ in range(rng.randint(0, 5))]
     if r < 0.6:
@@ -208,8 +229,11 @@ def g_path(rng, base, for_seq=True, want=None):
     pos = list(positions(base))
     conts = [(p, v) for p, v in pos if isinstance(v, want or ((list, tuple) if for_seq else (dict, list)))]
     r = rng.random()
-    if conts and r < 0.8:
+    texts = [(p, v) for p, v in pos if isinstance(v, (str, bytes)) and len(v) > 0]
+    if conts and r < 0.76:
         p, obj = rng.choice(conts)
+    elif texts and r < 0.80:
+        p, obj = rng.choice(texts)         # an index into a str / bytes
     elif r < 0.93:
         p, obj = rng.choice(pos)           # any sub-value: atoms, strings, sets, dicts as obj
     else:
@@ -244,6 +268,36 @@ def near_value(rng, base, p):
     return g_value(rng, 1)
 
 
+def g_written(rng):
+    """a value that the payload WRITES into the base: tuple-free (see the module docstring)"""
+    return g_value(rng, 1, tuples=False)
+
+
+def detuple(v):
+    if isinstance(v, (list, tuple)):
+        return [detuple(x) for x in v]
+    if isinstance(v, dict):
+        return {k: detuple(x) for k, x in v.items()}
+    return v
+
+
+def has_tuple(v):
+    if isinstance(v, tuple):
+        return True
+    if isinstance(v, list):
+        return any(has_tuple(x) for x in v)
+    if isinstance(v, dict):
+        return any(has_tuple(x) for x in v.values())
+    return False
+
+
+def written_values(pay):
+    out = [ch["new_value"] for cat in ("values_changed", "type_changes") for ch in pay.get(cat, {}).values()]
+    out += list(pay.get("iterable_item_added", {}).values()) + list(pay.get("dictionary_item_added", {}).values())
+    out += [ch["value"] for ch in pay.get("iterable_item_moved", {}).values()]
+    return out
+
+
 def g_payload(rng, base):
     pay = {}
     used = {}
@@ -265,19 +319,54 @@ def g_payload(rng, base):
         cats = rng.sample(cats, 2)
     else:
         cats = [c for c in cats if rng.random() < 0.5]
+    # a removal whose expected value sits at the same distance on both sides of the index (and not at the index)
+    lists_at = [(p, v) for p, v in positions(base) if isinstance(v, list) and len(v) >= 3]
+    if lists_at and rng.random() < 0.25:
+        p, xs = rng.choice(lists_at)
+        cands = [(i, dd) for i in range(len(xs)) for dd in range(1, len(xs)) if i - dd >= 0 and i + dd < len(xs)
+                 and xs[i - dd] == xs[i + dd] and not (xs[i] == xs[i - dd]) and not isinstance(xs[i - dd], (list, dict, tuple, set, frozenset))]
+        if cands:
+            i, dd = rng.choice(cands)
+            if rng.random() < 0.7:
+                if fresh("irem", p + (i,)):
+                    pay.setdefault("iterable_item_removed", {})[path_str(p + (i,))] = xs[i - dd]
+            elif fresh("irem", p + (i,)) and fresh("iadd", p + (0,)):
+                pay.setdefault("iterable_item_moved", {})[path_str(p + (i,))] = {"new_path": path_str(p + (0,)), "value": xs[i - dd]}
+    tuples_at = [p for p, v in positions(base) if isinstance(v, tuple) and p]
+    if tuples_at and rng.random() < 0.12:
+        # a tuple is written into (coerced, registered for post-processing) and then removed or replaced
+        p = rng.choice(tuples_at)
+        obj = base
+        for k in p:
+            obj = obj[k]
+        q = p + (rng.randint(0, len(obj)),)
+        w = rng.random()
+        if w < 0.4 and obj and fresh("val", q[:-1] + (0,)):
+            pay.setdefault("values_changed", {})[path_str(q[:-1] + (0,))] = {"new_value": g_written(rng)}
+        elif w < 0.7 and fresh("dadd", q):
+            pay.setdefault("dictionary_item_added", {})[path_str(q)] = g_written(rng)
+        elif fresh("iadd", q):
+            pay.setdefault("iterable_item_added", {})[path_str(q)] = g_written(rng)
+        w = rng.random()
+        if w < 0.5 and fresh("drem", p):
+            pay.setdefault("dictionary_item_removed", {})[path_str(p)] = near_value(rng, base, p)
+        elif w < 0.8 and fresh("dadd", p):
+            pay.setdefault("dictionary_item_added", {})[path_str(p)] = g_written(rng)
+        elif len(p) > 1 and fresh("drem", p[:-1]):
+            pay.setdefault("dictionary_item_removed", {})[path_str(p[:-1])] = near_value(rng, base, p[:-1])
     for c in cats:
         for _ in range(rng.choice([1, 1, 2, 3])):
             if c == "val":
                 p = g_path(rng, base, for_seq=rng.random() < 0.5) if rng.random() < 0.9 else ()
                 if fresh("val", p):
-                    ch = {"new_value": g_value(rng, 1)}
+                    ch = {"new_value": g_written(rng)}
                     if bidir and rng.random() < 0.8:
                         ch["old_value"] = near_value(rng, base, p)
                     pay.setdefault("values_changed", {})[path_str(p)] = ch
             elif c == "type":
                 p = g_path(rng, base, for_seq=rng.random() < 0.5) if rng.random() < 0.9 else ()
                 if fresh("type", p):
-                    nv = g_value(rng, 1)
+                    nv = g_written(rng)
                     old = near_value(rng, base, p)
                     ch = {"old_type": type(old), "new_type": type(nv), "new_value": nv}
                     if bidir and rng.random() < 0.8:
@@ -286,7 +375,7 @@ def g_payload(rng, base):
             elif c == "iadd":
                 p = g_path(rng, base) if rng.random() < 0.97 else ()
                 if fresh("iadd", p):
-                    pay.setdefault("iterable_item_added", {})[path_str(p)] = g_value(rng, 1)
+                    pay.setdefault("iterable_item_added", {})[path_str(p)] = g_written(rng)
             elif c == "irem":
                 p = g_path(rng, base)
                 if fresh("irem", p):
@@ -295,11 +384,11 @@ def g_payload(rng, base):
                 p = g_path(rng, base)
                 q = p[:-1] + (g_last_key(rng, None, True) if rng.random() < 0.3 else rng.randint(0, 5),) if rng.random() < 0.85 else g_path(rng, base)
                 if fresh("irem", p) and fresh("iadd", q):
-                    pay.setdefault("iterable_item_moved", {})[path_str(p)] = {"new_path": path_str(q), "value": near_value(rng, base, p)}
+                    pay.setdefault("iterable_item_moved", {})[path_str(p)] = {"new_path": path_str(q), "value": detuple(near_value(rng, base, p))}
             elif c == "dadd":
                 p = g_path(rng, base, for_seq=False) if rng.random() < 0.95 else ()
                 if fresh("dadd", p):
-                    pay.setdefault("dictionary_item_added", {})[path_str(p)] = g_value(rng, 1)
+                    pay.setdefault("dictionary_item_added", {})[path_str(p)] = g_written(rng)
             elif c == "drem":
                 p = g_path(rng, base, for_seq=False)
                 if fresh("drem", p):
@@ -373,21 +462,16 @@ def has_container_in_tuple_any(pay):
     return False
 
 
-def features(ctx, base, pay, bidir, out, calls):
-    ctx.count("free:B:bidirectional" if bidir else "free:B:directed")
-    for cat in pay:
-        ctx.count("free:B:cat:" + cat)
-    if out[0] == "raised":
-        ctx.count("free:B:raised_" + out[1])
-    else:
-        ctx.count("free:B:completed" + (":errors_logged" if out[1] else ""))
+def feature_counts(base, pay, bidir):
+    """counter keys describing the payload (computed BEFORE the application, which mutates the payload dicts)"""
+    keys = ["free:B:bidirectional" if bidir else "free:B:directed"] + ["free:B:cat:" + cat for cat in pay]
     neg = flt = other = 0
     for cat in ("iterable_item_added", "iterable_item_removed", "iterable_item_moved"):
         for p, ch in pay.get(cat, {}).items():
             for q in [p] + ([ch["new_path"]] if cat == "iterable_item_moved" else []):
                 c = DC.parse_pathc(q)
                 if not c:
-                    ctx.count("free:B:root_path_in_" + cat)
+                    keys.append("free:B:root_path_in_" + cat)
                     continue
                 k = D.uncanon_atom(c[-1][1])
                 if isinstance(k, bool):
@@ -399,17 +483,27 @@ def features(ctx, base, pay, bidir, out, calls):
                 elif not isinstance(k, int):
                     other += 1
     if neg:
-        ctx.count("free:B:with_negative_index")
+        keys.append("free:B:with_negative_index")
     if flt:
-        ctx.count("free:B:with_float_index")
+        keys.append("free:B:with_float_index")
     if other:
-        ctx.count("free:B:with_bool_str_none_index")
+        keys.append("free:B:with_bool_str_none_index")
+    if isinstance(base, tuple) or any(isinstance(v, tuple) for _p, v in positions(base)):
+        keys.append("free:B:base_with_tuple")
+    return keys
+
+
+def features(ctx, pre, out, calls):
+    for k in pre:
+        ctx.count(k)
+    if out[0] == "raised":
+        ctx.count("free:B:raised_" + out[1])
+    else:
+        ctx.count("free:B:completed" + (":errors_logged" if out[1] else ""))
     if calls["closest"]:
         ctx.count("free:B:find_closest_called")
     if calls["closest_hit"]:
         ctx.count("free:B:find_closest_found_elsewhere")
-    if isinstance(base, tuple) or any(isinstance(v, tuple) for _p, v in positions(base)):
-        ctx.count("free:B:base_with_tuple")
 
 
 class Spy:
@@ -446,8 +540,8 @@ def stream_b(ctx, n):
         pay, bidir = g_payload(rng, base)
         if not pay:
             continue
-        if DC.has_container_in_tuple(base) or has_container_in_tuple_any(pay):
-            ctx.count("free:B:skipped:container_in_tuple")
+        if DC.has_container_in_tuple(base) or has_container_in_tuple_any(pay) or any(has_tuple(w) for w in written_values(pay)):
+            ctx.count("free:B:skipped:container_in_tuple_or_tuple_written")
             continue
         # path strings must parse back to the generated keys, one parsed path per string
         ok = True
@@ -462,6 +556,8 @@ def stream_b(ctx, n):
         if not ok:
             ctx.count("free:B:skipped:path_does_not_parse")
             continue
+        # the very objects handed to Delta (iteration order of a payload set can show up in the result: tuple(set))
+        pay = copy.deepcopy(pay)
         po = pass_orders(pay)
         rem_tbl = [DC.parse_pathc(p) for p in po["rem6"][1]] + [DC.parse_pathc(p) for p in po["rem9"][1]]
         add_tbl = [DC.parse_pathc(p) for p in po["add7"][1]]
@@ -470,14 +566,16 @@ def stream_b(ctx, n):
             ctx.count("free:B:skipped:one_rank_table_cannot_give_both_pass_orders")
             continue
         obs = DC.delta_obs(pay)
+        features_pre = feature_counts(base, pay, bidir)
         expr = "(let d := %s in SL [sx_delta d; sx_result_f (apply_ff (fun _ _ => None) (order_by %s fst) (order_by %s fst) d %s)])" % (
             coq_delta(pay, bidir), DC.coq_paths(rem_tbl), DC.coq_paths(add_tbl), V.to_coq(base))
-        d = Delta(copy.deepcopy(pay), bidirectional=bidir, raise_errors=False)
+        tag_payload = repr(pay)
+        d = Delta(pay, bidirectional=bidir, raise_errors=False)      # __add__ mutates pay (dict.update): nothing below reads it
         with Spy() as spy:
             out, r = outcome(base, d)
-        features(ctx, base, pay, bidir, out, spy.calls)
-        ctx.seen(("freeB", repr(base), repr(pay), bidir), nontrivial=(out[0] == "raised" or not V.typed_eq(r, base)))
-        tag = dict(stream="free:B", base=repr(base), payload=repr(pay), bidirectional=bidir, impl=repr(out))
+        features(ctx, features_pre, out, spy.calls)
+        ctx.seen(("freeB", repr(base), tag_payload, bidir), nontrivial=(out[0] == "raised" or not V.typed_eq(r, base)))
+        tag = dict(stream="free:B", base=repr(base), payload=tag_payload, bidirectional=bidir, impl=repr(out))
         cases.append((expr, [obs, out], tag))
     for c in cases[:2]:
         ctx.sample(c[2])
